@@ -34,6 +34,15 @@ func findHarness(fn string) *Harness {
 }
 
 var registry = []Harness{
-	{Prop: "C01", Pkg: "balance", Func: "VerifC01Transfer", Link: []string{"netmap", "balance"},
-		Bound: "mint,mint then one public transfer; amounts, direction, signer symbolic"},
+	{Prop: "C01", Pkg: "balance", Func: "VerifC01Op", Link: []string{"netmap", "balance"},
+		Quick:    [][]int{{0, 20, 20}, {0, 0, 20}, {0, 20, 19}, {1, 20, 20}, {2, 20, 20}, {3, 20, 20}, {4, 20, 20}, {5, 20, 20}},
+		Thorough: [][]int{{0, 20, 20}, {0, 0, 20}, {0, 19, 20}, {0, 21, 20}, {0, 20, 0}, {0, 20, 19}, {0, 20, 21}, {1, 20, 20}, {2, 20, 20}, {3, 20, 20}, {4, 20, 20}, {5, 20, 20}},
+		Bound:    "state: mint(a0,x0) mint(a1,x1) lock(a0->lk,y,until), all amounts symbolic; then ONE operation (param 0: transfer/transferX/mint/burn/lock/newEpoch) with symbolic 20-byte (public transfer: also 0/19/21-byte) from/to free to alias any account, symbolic amount in Z, symbolic signer set {Alphabet,a0,a1}+stranger; unwind 16"},
+	{Prop: "C02", Pkg: "balance", Func: "VerifC01Op", Link: []string{"netmap", "balance"},
+		Quick:    [][]int{{0, 20, 20}, {0, 0, 20}, {0, 20, 19}, {1, 20, 20}, {2, 20, 20}, {3, 20, 20}, {4, 20, 20}, {5, 20, 20}},
+		Thorough: [][]int{{0, 20, 20}, {0, 0, 20}, {0, 19, 20}, {0, 21, 20}, {0, 20, 0}, {0, 20, 19}, {0, 20, 21}, {1, 20, 20}, {2, 20, 20}, {3, 20, 20}, {4, 20, 20}, {5, 20, 20}},
+		Bound:    "same scenario as C01 (one symbolic operation after mint,mint,lock); C02 assertions: a balance decreases only with the holder's witness (public transfer, from = holder) or the Alphabet's (Alphabet methods)"},
+	{Prop: "C09", Pkg: "balance", Func: "VerifC09Locks", Link: []string{"netmap", "balance"},
+		Quick: [][]int{{0}, {1}},
+		Bound: "mint, two locks of one owner (amounts, until in -3..300 symbolic), optional burn of the first (0..y1), two ticks with symbolic epochs 1..300 (param: delivered directly / through the Netmap fan-out)"},
 }
